@@ -14,11 +14,11 @@ package main
 
 import (
 	"archive/tar"
+	"bytes"
 	"context"
 	"crypto/sha1"
 	"encoding/base64"
 	"encoding/hex"
-	"bytes"
 	"fmt"
 	"io"
 	"net/http"
@@ -190,8 +190,8 @@ type glueEnv struct {
 	key     string
 	tr      *glueTransport // nil when no repository is served over HTTP
 	auths   []auth.Authenticator
-	written []glueWritten            // every repository line in the order written: build, runtime, extra build, extra runtime
-	byPlace map[string][]string      // place -> lines
+	written []glueWritten             // every repository line in the order written: build, runtime, extra build, extra runtime
+	byPlace map[string][]string       // place -> lines
 	uri     map[string]map[int]string // arch -> repo -> Repository().URI of its packages
 	cache   string
 }
